@@ -859,13 +859,14 @@ class SSHTunTapStreamSession(SSHSocketStreamSession[bytes], SSHTunTapSession):
 
         recv_buf = self._recv_buf[datatype]
 
-        while not self._eof_received:
-            if recv_buf:
-                data = cast(bytes, recv_buf.pop(0))
-                self._recv_buf_len -= len(data)
-                self._maybe_resume_reading()
-                return data
-            else:
-                await self._block_read(datatype)
+        async with self._read_locks[datatype]:
+            while not self._eof_received:
+                if recv_buf:
+                    data = cast(bytes, recv_buf.pop(0))
+                    self._recv_buf_len -= len(data)
+                    self._maybe_resume_reading()
+                    return data
+                else:
+                    await self._block_read(datatype)
 
         return b''
